@@ -366,3 +366,123 @@ func TypeIs(t types.Type, pkgPath, name string) bool {
 func InModuleVar(v *types.Var) bool {
 	return v != nil && v.Pkg() != nil && strings.HasPrefix(v.Pkg().Path(), Mod)
 }
+
+// InlineLocals returns e with every identifier that names a local variable defined exactly
+// once in body (`x := rhs`, never reassigned) replaced by its defining expression, so that a
+// rule comparing expression shapes is insensitive to the introduction of explaining locals.
+func InlineLocals(info *types.Info, body ast.Node, e ast.Expr) ast.Expr {
+	defs := map[types.Object]ast.Expr{}
+	writes := map[types.Object]int{}
+	ast.Inspect(body, func(n ast.Node) bool {
+		switch x := n.(type) {
+		case *ast.AssignStmt:
+			for i, l := range x.Lhs {
+				id, ok := l.(*ast.Ident)
+				if !ok {
+					continue
+				}
+				o := info.Defs[id]
+				if o == nil {
+					o = info.Uses[id]
+				}
+				if o == nil {
+					continue
+				}
+				writes[o]++
+				if x.Tok == token.DEFINE && len(x.Lhs) == len(x.Rhs) && info.Defs[id] != nil {
+					defs[o] = x.Rhs[i]
+				}
+			}
+		case *ast.IncDecStmt:
+			if id, ok := x.X.(*ast.Ident); ok {
+				writes[info.Uses[id]] += 2
+			}
+		case *ast.UnaryExpr:
+			if x.Op == token.AND {
+				if id, ok := x.X.(*ast.Ident); ok {
+					writes[info.Uses[id]] += 2 // address taken: may be written elsewhere
+				}
+			}
+		case *ast.RangeStmt:
+			for _, l := range []ast.Expr{x.Key, x.Value} {
+				if id, ok := l.(*ast.Ident); ok {
+					if o := info.Defs[id]; o != nil {
+						writes[o] += 2
+					}
+				}
+			}
+		}
+		return true
+	})
+	var sub func(e ast.Expr, depth int) ast.Expr
+	sub = func(e ast.Expr, depth int) ast.Expr {
+		if e == nil || depth > 4 {
+			return e
+		}
+		switch x := e.(type) {
+		case *ast.Ident:
+			if o := info.Uses[x]; o != nil && writes[o] == 1 {
+				if d, ok := defs[o]; ok {
+					return &ast.ParenExpr{X: sub(d, depth+1)}
+				}
+			}
+			return x
+		case *ast.ParenExpr:
+			return &ast.ParenExpr{X: sub(x.X, depth)}
+		case *ast.SelectorExpr:
+			return &ast.SelectorExpr{X: sub(x.X, depth), Sel: x.Sel}
+		case *ast.StarExpr:
+			return &ast.StarExpr{X: sub(x.X, depth)}
+		case *ast.UnaryExpr:
+			return &ast.UnaryExpr{Op: x.Op, X: sub(x.X, depth)}
+		case *ast.BinaryExpr:
+			return &ast.BinaryExpr{X: sub(x.X, depth), Op: x.Op, Y: sub(x.Y, depth)}
+		case *ast.IndexExpr:
+			return &ast.IndexExpr{X: sub(x.X, depth), Index: sub(x.Index, depth)}
+		case *ast.CallExpr:
+			args := make([]ast.Expr, len(x.Args))
+			for i, a := range x.Args {
+				args[i] = sub(a, depth)
+			}
+			return &ast.CallExpr{Fun: sub(x.Fun, depth), Args: args, Ellipsis: x.Ellipsis}
+		case *ast.TypeAssertExpr:
+			return &ast.TypeAssertExpr{X: sub(x.X, depth), Type: x.Type}
+		}
+		return e
+	}
+	return sub(e, 0)
+}
+
+// ExprStringNoParens prints e without redundant parentheses around identifiers, selectors and calls.
+func ExprStringNoParens(e ast.Expr) string {
+	var strip func(e ast.Expr) ast.Expr
+	strip = func(e ast.Expr) ast.Expr {
+		switch x := e.(type) {
+		case *ast.ParenExpr:
+			in := strip(x.X)
+			switch in.(type) {
+			case *ast.Ident, *ast.SelectorExpr, *ast.CallExpr, *ast.IndexExpr, *ast.BasicLit, *ast.CompositeLit:
+				return in
+			}
+			return &ast.ParenExpr{X: in}
+		case *ast.SelectorExpr:
+			return &ast.SelectorExpr{X: strip(x.X), Sel: x.Sel}
+		case *ast.UnaryExpr:
+			return &ast.UnaryExpr{Op: x.Op, X: strip(x.X)}
+		case *ast.StarExpr:
+			return &ast.StarExpr{X: strip(x.X)}
+		case *ast.BinaryExpr:
+			return &ast.BinaryExpr{X: strip(x.X), Op: x.Op, Y: strip(x.Y)}
+		case *ast.IndexExpr:
+			return &ast.IndexExpr{X: strip(x.X), Index: strip(x.Index)}
+		case *ast.CallExpr:
+			args := make([]ast.Expr, len(x.Args))
+			for i, a := range x.Args {
+				args[i] = strip(a)
+			}
+			return &ast.CallExpr{Fun: strip(x.Fun), Args: args, Ellipsis: x.Ellipsis}
+		}
+		return e
+	}
+	return types.ExprString(strip(e))
+}
